@@ -81,6 +81,18 @@ func c12Catalogue() []c12Prog {
 		{name: "fail-inside-loop", files: with(map[string]string{"page.vuego": "<ul><li v-for=\"i in items\"><b>{{ i }}</b><template include=\"comp/bad.vuego\" x=\"1\"></template></li></ul>"}), page: "page.vuego", chain: 1,
 			inline: "<ul><li v-for=\"i in items\"><b>{{ i }}</b><template include=\"comp/bad.vuego\" x=\"1\"></template></li></ul>"},
 		{name: "fail-missing-page", files: with(nil), page: "nopage.vuego", chain: 1, loadFail: true},
+		// a failure in every directive position, after a large part of the document has been evaluated
+		{name: "fail-in-v-text", files: with(map[string]string{"page.vuego": big + "<p v-text=\"x | nosuchfilter\">t</p><p>after</p>"}), page: "page.vuego", chain: 1, inline: big + "<p v-text=\"x | nosuchfilter\">t</p><p>after</p>"},
+		{name: "fail-in-v-html", files: with(map[string]string{"page.vuego": big + "<div v-html=\"x | nosuchfilter\"></div><p>after</p>"}), page: "page.vuego", chain: 1, inline: big + "<div v-html=\"x | nosuchfilter\"></div><p>after</p>"},
+		{name: "fail-in-bound-attr", files: with(map[string]string{"page.vuego": big + "<p :title=\"x | nosuchfilter\">t</p><p>after</p>"}), page: "page.vuego", chain: 1, inline: big + "<p :title=\"x | nosuchfilter\">t</p><p>after</p>"},
+		{name: "fail-in-interpolated-attr", files: with(map[string]string{"page.vuego": big + "<p title=\"a {{ x | nosuchfilter }} b\">t</p><p>after</p>"}), page: "page.vuego", chain: 1, inline: big + "<p title=\"a {{ x | nosuchfilter }} b\">t</p><p>after</p>"},
+		{name: "fail-in-chain-member-text", files: with(map[string]string{"page.vuego": big + "<p v-if=\"no\">a</p><p v-else-if=\"n\" v-text=\"x | nosuchfilter\">b</p><p v-else>c</p><p>after</p>"}), page: "page.vuego", chain: 1, inline: big + "<p v-if=\"no\">a</p><p v-else-if=\"n\" v-text=\"x | nosuchfilter\">b</p><p v-else>c</p><p>after</p>"},
+		{name: "fail-in-chain-member-attr", files: with(map[string]string{"page.vuego": big + "<p v-if=\"no\">a</p><p v-else :class=\"x | nosuchfilter\">c</p><p>after</p>"}), page: "page.vuego", chain: 1, inline: big + "<p v-if=\"no\">a</p><p v-else :class=\"x | nosuchfilter\">c</p><p>after</p>"},
+		{name: "fail-in-template-v-html", files: with(map[string]string{"page.vuego": big + "<template v-html=\"x | nosuchfilter\"></template><p>after</p>"}), page: "page.vuego", chain: 1, inline: big + "<template v-html=\"x | nosuchfilter\"></template><p>after</p>"},
+		{name: "fail-in-loop-late-item", files: with(map[string]string{"page.vuego": big + "<ul><li v-for=\"i in items\"><b v-if=\"i == 'c'\">{{ i | nosuchfilter }}</b><i v-else>{{ i }}</i></li></ul><p>after</p>"}), page: "page.vuego", chain: 1, inline: big + "<ul><li v-for=\"i in items\"><b v-if=\"i == 'c'\">{{ i | nosuchfilter }}</b><i v-else>{{ i }}</i></li></ul><p>after</p>"},
+		{name: "fail-in-slot-content", files: with(map[string]string{"page.vuego": big + "<template include=\"comp/ok.vuego\" x=\"q\"><u>{{ x | nosuchfilter }}</u></template><p>after</p>"}), page: "page.vuego", chain: 1, inline: big + "<template include=\"comp/ok.vuego\" x=\"q\"><u>{{ x | nosuchfilter }}</u></template><p>after</p>"},
+		{name: "fail-bad-loop-head", files: with(map[string]string{"page.vuego": big + "<ul><li v-for=\"(a, b, c) in items\">{{ a }}</li></ul><p>after</p>"}), page: "page.vuego", chain: 1, inline: big + "<ul><li v-for=\"(a, b, c) in items\">{{ a }}</li></ul><p>after</p>"},
+		{name: "fail-in-once", files: with(map[string]string{"page.vuego": big + "<div v-once><span>{{ x | nosuchfilter }}</span></div><p>after</p>"}), page: "page.vuego", chain: 1, inline: big + "<div v-once><span>{{ x | nosuchfilter }}</span></div><p>after</p>"},
 		// layouts
 		{name: "ok-layout-explicit", files: with(map[string]string{"page.vuego": "---\nlayout: la\n---\n<p>{{ x }}</p>" + big, "layouts/la.vuego": layoutA}), page: "page.vuego", chain: 2},
 		{name: "ok-layout-chain3", files: with(map[string]string{"page.vuego": "---\nlayout: la\n---\n<p>{{ x }}</p>", "layouts/la.vuego": "---\nlayout: base\n---\n<section v-html=\"content\"></section>", "layouts/base.vuego": base}), page: "page.vuego", chain: 3},
